@@ -441,6 +441,16 @@ def judge(case, res, den_base, den_written):
     if "write_error" in res:
         sig = {"mechanism": "edit", "class": "write-raises", "error": res["write_error"]}
         return sig, f"write_to_file raised {res['write_error']} after the edits", len(script)
+    # damage to the line structure first (its symptoms elsewhere are consequences): a card swallowed by its neighbour,
+    # a value that landed in a comment
+    if len(den_written["cells"]) != len(den_base["cells"]) or len(den_written["surfaces"]) != len(den_base["surfaces"]):
+        sig = {"mechanism": "edit", "class": "cards-fused"}
+        return sig, (f"the written file has {len(den_written['cells'])} cell and {len(den_written['surfaces'])} surface cards, the original "
+                     f"{len(den_base['cells'])} and {len(den_base['surfaces'])}: an input was continued into its neighbour"), len(script)
+    new_comments = _comments(den_written) - _comments(den_base)
+    if new_comments:
+        sig = {"mechanism": "edit", "class": "value-in-comment"}
+        return sig, f"the written file has comment text the original does not have: {sorted(new_comments)[:3]} (a value was written behind a comment)", len(script)
     t1 = ci.table(den_written)
     keys = sorted(set(t_exp) | set(t1), key=str)
     # an input nobody asked for first: its words are missing elsewhere as a consequence
@@ -467,6 +477,16 @@ def judge(case, res, den_base, den_written):
         sig = {"mechanism": "edit", "class": cls, "quantity": q, "context": ctx}
         return sig, f"{key}: file says {_show(b)}, the edited reference says {_show(a)} (unedited: {_show(t0.get(key))})", len(script)
     return None
+
+
+def _comments(den):
+    out = set()
+    for blk in ("cells", "surfaces", "data"):
+        for c in den[blk]:
+            out |= {x.strip() for x in c["ccomments"]} | {x.strip() for x in c["dollar"]}
+    for h in ("head", "surf_head", "data_head"):
+        out |= {x.strip() for x in den[h]}
+    return out
 
 
 def _show(x):
